@@ -208,6 +208,7 @@ deriving DecidableEq, Repr, Inhabited
 structure HttpRoute where
   srcNs : List String     -- `sourceNamespace` of each HTTPMatchRequest
   dests : List Dest       -- route / mirror destinations
+  delegate : Option (String × String) := none   -- (namespace or "", name) of a delegate VirtualService
 deriving Repr, Inhabited
 
 structure VS where
@@ -239,6 +240,38 @@ def vsExport (m : Mesh) (v : VS) : List String :=
 
 /-- `getGatewayNames` contains `mesh` -/
 def vsOnMesh (v : VS) : Bool := v.gateways.isEmpty || v.gateways.contains "mesh"
+
+/-- `resolveGatewayName` for the forms `mesh`, short name, `./name`, `ns/name` (a gateway-semantics
+    VirtualService is not resolved) -/
+def resolveGw (v : VS) (g : String) : String :=
+  if g == "mesh" || v.gwSem then g
+  else match g.splitOn "/" with
+    | [short] => v.ns ++ "/" ++ short
+    | ["." , name] => v.ns ++ "/" ++ name
+    | _ => g
+
+/-- `getGatewayNames` after resolution -/
+def gwNamesOf (v : VS) : List String :=
+  if v.gateways.isEmpty then ["mesh"] else v.gateways.map (resolveGw v)
+
+/-- the VirtualService is bound to gateway `gw` -/
+def vsOnGw (v : VS) (gw : String) : Bool := (gwNamesOf v).contains gw
+
+/-- `virtualServiceIndex.publicByGateway[gw]` -/
+def vsPublicGw (m : Mesh) (vss : List VS) (gw : String) : List VS :=
+  vss.filter fun v => vsOnGw v gw && (vsExport m v).contains "*"
+
+/-- `virtualServiceIndex.privateByNamespaceAndGateway[(ns, gw)]` -/
+def vsPrivateGw (m : Mesh) (vss : List VS) (ns gw : String) : List VS :=
+  vss.filter fun v =>
+    let e := vsExport m v
+    vsOnGw v gw && !e.contains "*" && !e.contains "~" && v.ns == ns && e.contains ns
+
+/-- `virtualServiceIndex.exportedToNamespaceByGateway[(ns, gw)]` -/
+def vsExportedGw (m : Mesh) (vss : List VS) (ns gw : String) : List VS :=
+  vss.filter fun v =>
+    let e := vsExport m v
+    vsOnGw v gw && !e.contains "*" && !e.contains "~" && v.ns != ns && e.contains ns
 
 /-- `virtualServiceIndex.publicByGateway[mesh]` -/
 def vsPublic (m : Mesh) (vss : List VS) : List VS :=
@@ -467,11 +500,43 @@ def scopeServices (f : Flags) (m : Mesh) (svcs : List Svc) (vss : List VS) (sc :
 def gatewayScopeServices (aliasGuard : Bool) (m : Mesh) (svcs : List Svc) (cfgNs : String) : List Svc :=
   ((servicesExportedToNamespace m svcs cfgNs).map (trimHiddenAlias aliasGuard m svcs cfgNs)).foldl appendSvc []
 
-/-- `PushContext.VirtualServicesForGateway(ns, mesh)` (the gateway default scope's listener) -/
-def gatewayVirtualServices (m : Mesh) (vss : List VS) (ns : String) : List VS :=
-  let pub := vsPublic m vss
-  vsPrivate m vss ns ++ vsExported m vss ns ++
+/-- `PushContext.VirtualServicesForGateway(ns, gw)`: the VirtualService selection of a gateway
+    (`gw` = `mesh` for the default scope's listener, `<ns>/<name>` for the servers of a Router) -/
+def gatewayVirtualServices (m : Mesh) (vss : List VS) (ns gw : String) : List VS :=
+  let pub := vsPublicGw m vss gw
+  vsPrivateGw m vss ns gw ++ vsExportedGw m vss ns gw ++
     pub.filter (fun v => v.gwSem && v.ns == ns) ++ pub.filter (fun v => !(v.gwSem && v.ns == ns))
+
+/-! ### delegate VirtualServices (`mergeVirtualServices`) -/
+
+/-- the delegate `(ns, name)` a route of `root` refers to (namespace defaults to the root's) -/
+def findDelegate (all : List VS) (root : VS) (ref : String × String) : Option VS :=
+  let dns := if ref.1 == "" then root.ns else ref.1
+  all.find? fun d => d.hosts.isEmpty && d.ns == dns && d.name == ref.2
+
+/-- the delegate is visible to the root VirtualService's namespace -/
+def delegateVisible (m : Mesh) (d : VS) (rootNs : String) : Bool :=
+  let e := vsExport m d
+  e.contains "*" || e.contains rootNs
+
+/-- the http routes of a root VirtualService after `mergeVirtualServices`: a delegating route is
+    replaced by the routes of its delegate when that exists and is exported to the root's namespace,
+    and dropped otherwise (roots delegate with an empty match, so the delegate routes are taken as
+    they are) -/
+def mergedHttp (m : Mesh) (all : List VS) (root : VS) : List HttpRoute :=
+  root.http.flatMap fun r =>
+    match r.delegate with
+    | none => [r]
+    | some ref =>
+      match findDelegate all root ref with
+      | none => []
+      | some d => if delegateVisible m d root.ns then d.http else []
+
+/-- `mergeVirtualServices`: delegates (no hosts) are not VirtualServices of their own; roots carry the
+    merged routes (an Ingress/Gateway-semantics VirtualService is not merged) -/
+def mergeVSs (m : Mesh) (all : List VS) : List VS :=
+  (all.filter fun v => !v.hosts.isEmpty).map fun v =>
+    if v.gwSem then v else { v with http := mergedHttp m all v }
 
 /-! ### which Sidecar applies (`initSidecarScopes`, `getSidecarScope`) -/
 
